@@ -174,6 +174,9 @@ static void device_init(int registered) {
     supla_esp_devconn_connect_cb(NULL); /* supla_esp_srpc_init() */
     devconn->registered = registered;
     devconn->server_activity_timeout = ACTIVITY_TIMEOUT;
+    /* a device that is up and has just heard from the server (at power-on the counter is ~0 and
+       last_response = 0 is the 60 s connect grace; scenarios start mid-life) */
+    devconn->last_response = devconn->last_sent = uptime_sec();
   }
 }
 
@@ -252,6 +255,13 @@ int main(void) {
       } else if (!strcmp(op, "esp")) {
         for (int i = 1; i < ops_ntok && sdk_esp_script_len < SDK_ESP_SCRIPT_MAX; i++)
           sdk_esp_script[sdk_esp_script_len++] = atoi(ops_tok[i]);
+      } else if (!strcmp(op, "rslog") && ops_ntok == 2) {
+        fw_hook_rs_log = atoi(ops_tok[1]);
+        for (int i = 0; i < RS_MAX_COUNT; i++)
+          if (supla_rs_cfg[i].up && supla_rs_cfg[i].down)
+            sdk_out("RSSTAMP %d %u %u %d %d %u %u", i, supla_rs_cfg[i].start_time, supla_rs_cfg[i].stop_time,
+                    __supla_esp_gpio_relay_is_hi(supla_rs_cfg[i].up), __supla_esp_gpio_relay_is_hi(supla_rs_cfg[i].down),
+                    supla_rs_cfg[i].up->gpio_id, supla_rs_cfg[i].down->gpio_id);
       } else if (!strcmp(op, "sentbytes") && ops_ntok == 2) {
         sdk_log_sent_bytes = atoi(ops_tok[1]);
       } else {
